@@ -43,6 +43,7 @@ type vhandle struct {
 	f      *vfile
 	pos    int
 	closed bool
+	hole   *Term // bytes between the end of the file and the position (left by a truncate below the position)
 }
 
 type vstream struct {
@@ -239,6 +240,13 @@ func (ex *Exec) openFile(fn *ssa.Function, path string, create, trunc bool) Valu
 
 func (ex *Exec) appendChunk(h *vhandle, c *vchunk) {
 	ex.vfs.dirty[h.path] = true
+	if h.hole != nil && h.pos == len(h.f.chunks) {
+		// writing beyond the end of the file: the gap reads back as bytes that belong to no record
+		h.f.chunks = append(h.f.chunks, &vchunk{kind: 3, avail: h.hole})
+		h.pos++
+		h.hole = nil
+		ex.tags["hole"] = "write-beyond-end-of-file-after-truncate"
+	}
 	if h.pos == len(h.f.chunks) {
 		h.f.chunks = append(h.f.chunks, c)
 		h.pos++
@@ -514,9 +522,14 @@ func registerIOIntercepts() {
 			case 0:
 				k := ex.boundaryFor(h.f, off)
 				if k < 0 {
-					ex.fatal("vfs: seek to an offset that is not a record boundary")
+					if !ex.vfs.misparsed {
+						ex.fatal("vfs: seek to an offset that is not a record boundary")
+					}
+					// the framing of this file is already reported as destroyed: position at the end
+					k = len(h.f.chunks)
 				}
 				h.pos = k
+				h.hole = nil
 			case 1:
 				if !(off.IsConst() && off.C == 0) {
 					ex.fatal("vfs: relative seek with non-zero offset")
@@ -526,8 +539,13 @@ func registerIOIntercepts() {
 					ex.fatal("vfs: seek from end with non-zero offset")
 				}
 				h.pos = len(h.f.chunks)
+				h.hole = nil
 			}
-			return &Agg{E: []Value{offsetOf(h.f, h.pos), nilErr()}}
+			at := offsetOf(h.f, h.pos)
+			if h.hole != nil {
+				at = mkBin("bvadd", at, h.hole)
+			}
+			return &Agg{E: []Value{at, nilErr()}}
 		},
 		"(*os.File).Sync": func(ex *Exec, fn *ssa.Function, a []Value) Value {
 			if ex.vfs != nil {
@@ -568,6 +586,21 @@ func registerIOIntercepts() {
 			}
 			if k < len(h.f.chunks) {
 				ex.crashPoint("truncate " + h.path)
+				if h.pos > k {
+					// truncating does not move the position: it now lies beyond the end of the file, and a
+					// write there leaves a hole of zero bytes in between
+					gap := mkBin("bvsub", offsetOf(h.f, h.pos), offsetOf(h.f, k))
+					if h.hole != nil {
+						gap = mkBin("bvadd", gap, h.hole)
+					}
+					h.hole = gap
+					h.pos = k
+				}
+				for _, oh := range ex.vfs.handles {
+					if oh != h && oh.f == h.f && oh.pos > k {
+						oh.pos = k
+					}
+				}
 				h.f.chunks = h.f.chunks[:k]
 				ex.vfs.logOp("truncate " + h.path)
 				ex.vfs.dirty[h.path] = true
